@@ -102,6 +102,8 @@ func (w *World) runDriver() (ok bool) {
 		w.driverOrders()
 	case "orders-weak":
 		w.driverOrdersWeak()
+	case "late-commit":
+		w.driverLateCommit()
 	case "lagging2":
 		w.driverLagging(2)
 	case "lagging3":
@@ -397,6 +399,50 @@ func (w *World) driverMacro(rounds int) {
 				w.fireIf(i, stepPrecommitWait, round)
 			}
 		}
+	}
+}
+
+// ---------------------------------------------------------------------------------------------
+// late-commit: round 1 is a good round (everybody holds the proposal, sees the polka and precommits the block), but
+// a chosen set of correct nodes (all three / two / one) first sees only +2/3-ANY precommits (its own, one other and a
+// Byzantine nil), times out and enters round 2; the remaining precommits of round 1 arrive only then: those nodes
+// commit the block of round 1 while standing in round 2 (commit round < current round). The default schedule then has
+// to carry the network through the NEXT height, where the late committers take their proposer turns.
+func (w *World) driverLateCommit() {
+	if len(w.Cfg.Byz) != 1 || len(w.Correct) != 3 {
+		panic("late-commit driver needs 3 correct + 1 byzantine")
+	}
+	b := w.Cfg.Byz[0]
+	const stepNewHeight, stepPrecommitWait = 1, 7
+	w.fireAll(stepNewHeight)
+	h := w.Nodes[w.Correct[0]].RS().Height
+	ch := w.X.Choose(make([]int, 3), "late-commit")
+	nLate := 3 - ch
+	w.Deviations = append(w.Deviations, fmt.Sprintf("late-commit:%d-nodes", nLate))
+	for _, i := range w.Correct {
+		w.deliverWhere(i, func(m *Msg) bool { return isData(m) && m.Round == 1 })
+	}
+	for _, i := range w.Correct {
+		w.deliverWhere(i, isVote(kproto.PrevoteType, 1))
+	}
+	for k, i := range w.Correct {
+		n := w.Nodes[i]
+		if n.Failed != nil || n.RS().Height != h {
+			continue
+		}
+		if k >= nLate {
+			w.deliverWhere(i, isVote(kproto.PrecommitType, 1))
+			continue
+		}
+		for _, m := range w.deliverables(i) {
+			if isVote(kproto.PrecommitType, 1)(m) && m.Vote.ValidatorAddress != w.Addrs[i] {
+				w.Deliver(i, m)
+				break
+			}
+		}
+		vi, _ := n.RS().Validators.GetByAddress(w.Addrs[b])
+		w.Deliver(i, w.byzVote(b, uint32(vi), kproto.PrecommitType, h, 1, types.BlockID{}, "late-commit"))
+		w.fireIf(i, stepPrecommitWait, 1)
 	}
 }
 
